@@ -145,10 +145,17 @@ def run(ctx):
         ctx.sample({"sublanguage": name, "text": pygen.realize(cases[len(cases) // 2], *LAYOUTS["multibyte"])[0]})
         check_cases(ctx, cases, name)
     corpus_structure(ctx)
+    # expressions inside f-string fields: FString.tla bodies (core items), ranges against the expression parsed alone
+    # and moved to its byte offset (the same clause as in C07; here it is C02's extent claim for nested expressions)
+    from checks import c07
+    c07.run_cfg(ctx, "FString_deepq.cfg", "fstring_field_ranges", 10 ** 9)
 
 
 def replay(ctx, rec):
     c = rec["case"]
+    if c.get("fam") == "fstr":
+        from checks import c07
+        return c07.replay(ctx, rec)
     ctx.states = ctx.transitions = 1
     h = ctx.harness("ranges")
     if c["fam"] == "py_ranges":
